@@ -33,6 +33,7 @@ inductive Adaptor
   | iter | enumerate | filterMap | next | transpose | mapErr
   /-- `for (i, p) in ….iter().enumerate() { match … { … => continue, … => return … } } Ok(None)` -/
   | forReturn
+  | find | map | position | index
   | rev | last | skip | other
   deriving DecidableEq, Repr
 
@@ -207,6 +208,25 @@ def miRun (arms : List MIArm) (hasMatcher hasReporter : Bool) (f : Option Bool) 
     some (match f with | some true => .t | some false => .f | none => .p)
   | .errNoMatcher => some .e
   | .unknown => none
+
+/-! ## `FnMocker::find_call_pattern_for_call_order` (`src/fn_mocker.rs`) -/
+
+structure FindSkel where
+  /-- the receiver is `self.call_patterns` -/
+  overCallPatterns : Bool
+  adaptors : List Adaptor
+  /-- the index handed back is the found element's own (`PatIndex(index)` of the same tuple / position) -/
+  ownIndex : Bool
+  deriving DecidableEq, Repr
+
+/-- meaning, over the per-pattern results of the ownership test: the first index whose test holds. Three spellings are
+    known: `iter().enumerate().find(test).map(..)`, a `for` loop returning at the first hit with a trailing `None`, and
+    `iter().position(test)?` followed by indexing. `none` = a spelling the interpreter does not know. -/
+def FindSkel.run (s : FindSkel) (tests : List Bool) : Option (Option Nat) :=
+  if s.overCallPatterns ∧ s.ownIndex ∧
+     (s.adaptors = [.iter, .enumerate, .find, .map] ∨ s.adaptors = [.iter, .enumerate, .forReturn] ∨
+      s.adaptors = [.iter, .position, .index])
+  then some (tests.findIdx? id) else none
 
 /-- classify a pattern's try result the way the closure sees it -/
 def ofTry : Option Try → R
